@@ -44,6 +44,11 @@ class K:
     def __init__(self, x: int, y: str = "a"): ...
     @property
     def p(self) -> bytes: ...
+    @property
+    def pt(self) -> tuple[int, str]: ...
+class K2:
+    x: float = 0.0
+    def __init__(self, x: complex): ...
 '''
 SIG_ANN = {"x": "int", "y": "str"}
 SIG_DEFAULT = {"y": "'a'"}
@@ -593,11 +598,68 @@ def _run_property_summary(env, acc):
                                       {"got": got, "expected": exp}, size=len(text))
 
 
+def _run_sphinx_field_orders(env, acc):
+    """Sphinx: a parameter and an attribute of the same name, each with its own type field, in every order of the four fields, under a class that annotates both differently."""
+    g = env["griffe"]
+    fields = {"P": ":param x: Desc one.", "V": ":var x: Desc two.", "TP": ":type x: list[int]", "TV": ":vartype x: bytes"}
+    for parent_name in ("K2", None):
+        for perm in itertools.permutations(fields):
+            text = "Summary line.\n\n" + "\n".join(fields[f] for f in perm)
+            case_d = {"style": "sphinx", "family": "sphinx-field-orders", "text": text, "parent": parent_name}
+            ds = g.Docstring(text, lineno=1, parent=env["mod"][parent_name] if parent_name else None)
+            try:
+                got = _norm(ds.parse("sphinx"), env["enc"])
+            except Exception as e:  # noqa: BLE001
+                acc.violation(f"raise/sphinx/{type(e).__name__}/field-orders", f"sphinx parser raised {e!r}", case_d, None, size=len(text))
+                continue
+            exp = sorted([{"kind": "text", "value": "Summary line."},
+                          {"kind": "parameters", "value": [{"name": "x", "annotation": "list[int]", "description": "Desc one."}]},
+                          {"kind": "attributes", "value": [{"name": "x", "annotation": "bytes", "description": "Desc two."}]}], key=lambda d: d["kind"])
+            got_c = sorted(got, key=lambda d: d["kind"])
+            ok = got_c == exp
+            acc.case(case_d, outcome=f"sphinx:{'ok' if ok else 'diff'}", nontrivial=True)
+            acc.observe(got)
+            if not ok:
+                which = next((e["kind"] for e, g2 in zip(exp, got_c + [{}] * len(exp)) if e != g2), "sections")
+                first = "type-first" if perm.index("TP" if which == "parameters" else "TV") < perm.index("P" if which == "parameters" else "V") else "type-after"
+                acc.violation(f"roundtrip/sphinx/field-orders/{which}/{first}/{'annotated-parent' if parent_name else 'no-parent'}", f"sphinx, fields in the order {perm}: parsed {got_c!r}, written {exp!r}", case_d,
+                              {"got": got, "expected": exp}, size=len(text))
+
+
+def _run_property_returns(env, acc):
+    """Returns sections without written types in the docstring of a PROPERTY: the type comes from the property's annotation (one item: all of it; several: one tuple element each)."""
+    g = env["griffe"]
+    for style in ("google", "numpy"):
+        for pname, anns in (("p", ["bytes"]), ("pt", ["tuple[int, str]"]), ("pt", ["int", "str"])):
+            for typed in (False, True):
+                names = ["r", "s"][: len(anns)]
+                items = [_item(n, ("float" if typed else None), D1) for n in names]
+                sections = [{"kind": "text", "text": [["Summary line."]]}, {"kind": "returns", "items": items}]
+                text = RENDER[style](sections, {})
+                case_d = {"style": style, "family": "property-returns", "text": text, "property": pname}
+                ds = g.Docstring(text, lineno=1, parent=env["mod"]["K." + pname])
+                try:
+                    got = _norm(ds.parse(style), env["enc"])
+                except Exception as e:  # noqa: BLE001
+                    acc.violation(f"raise/{style}/{type(e).__name__}/property-returns", f"{style} parser raised {e!r}", case_d, None, size=len(text))
+                    continue
+                exp = [{"kind": "text", "value": "Summary line."},
+                       {"kind": "returns", "value": [{"name": n, "annotation": "float" if typed else a, "description": "Desc one."} for n, a in zip(names, anns)]}]
+                ok = got == exp
+                acc.case(case_d, outcome=f"{style}:{'ok' if ok else 'diff'}", nontrivial=True)
+                acc.observe(got)
+                if not ok:
+                    acc.violation(f"roundtrip/{style}/property-returns/{'typed' if typed else 'annotation-from-property'}/{len(anns)}-items", f"{style} Returns under property K.{pname}: parsed {got!r}, expected {exp!r}", case_d,
+                                  {"got": got, "expected": exp}, size=len(text))
+
+
 def run_shard(shard, tier):
     env = _setup()
     acc = Acc()
     if shard == 0:
         _run_property_summary(env, acc)
+        _run_property_returns(env, acc)
+        _run_sphinx_field_orders(env, acc)
     for idx, case in enumerate(cases(tier)):
         if idx % NSHARDS != shard:
             continue
@@ -608,8 +670,8 @@ def run_shard(shard, tier):
 def replay(case):
     env = _setup()
     acc = Acc()
-    if case.get("family") == "property-summary":
-        _run_property_summary(env, acc)
+    if case.get("family") in ("property-summary", "property-returns", "sphinx-field-orders"):
+        {"property-summary": _run_property_summary, "property-returns": _run_property_returns, "sphinx-field-orders": _run_sphinx_field_orders}[case["family"]](env, acc)
         return [(k, v["summary"], v["detail"]) for k, v in acc.violations.items()]
     run_case(env, acc, (case["style"], tuple(case["sections"]), case["summary"], case["variant"]))
     return [(k, v["summary"], v["detail"]) for k, v in acc.violations.items()]
